@@ -51,6 +51,46 @@ pub fn rule_keys(r: &RuleAst) -> (BTreeSet<String>, BTreeSet<String>) {
     (top, nested)
 }
 
+/// keys written in nested blocks, per location: the chain of container keys (indices removed,
+/// joined by '.') -> the keys written in the blocks at that location
+pub fn nested_keys_by_location(r: &RuleAst) -> std::collections::BTreeMap<String, BTreeSet<String>> {
+    fn strip(k: &str) -> String {
+        k.split('.').map(|seg| seg.split('[').next().unwrap_or(seg)).collect::<Vec<_>>().join(".")
+    }
+    fn walk(es: &Entries, at: &str, out: &mut std::collections::BTreeMap<String, BTreeSet<String>>) {
+        for (k, v) in es {
+            let here = if at.is_empty() { strip(&k.field) } else { format!("{}.{}", at, strip(&k.field)) };
+            let mut inner_blocks: Vec<&Entries> = vec![];
+            match v {
+                RVal::Map(inner) => inner_blocks.push(inner),
+                RVal::List(ms) => {
+                    for m in ms {
+                        if let RVal::Map(inner) = m {
+                            inner_blocks.push(inner);
+                        }
+                    }
+                }
+                _ => {}
+            }
+            for inner in inner_blocks {
+                let set = out.entry(here.clone()).or_default();
+                for (ik, _) in inner.iter() {
+                    set.insert(ik.field.clone());
+                }
+                walk(inner, &here, out);
+            }
+        }
+    }
+    let mut out = std::collections::BTreeMap::new();
+    for (_, i) in &r.idents {
+        match i {
+            Ident::Map(es) => walk(es, "", &mut out),
+            Ident::Seq(s) => s.iter().for_each(|es| walk(es, "", &mut out)),
+        }
+    }
+    out
+}
+
 /// matrix-friendly rules: sequences of mappings over a few shared fields
 pub fn matrix_rule(rng: &mut Rng) -> RuleAst {
     let cfg = GenCfg { share_fields: 100, max_entries: 3, key_quant: false, ..Default::default() };
@@ -134,6 +174,7 @@ pub fn run(ctx: &Ctx) -> i32 {
             };
             rep.count("rules");
             let (top, nested) = rule_keys(&ast);
+            let by_loc = nested_keys_by_location(&ast);
             let leaves = gen::collect_leaves(&ast);
             let docs: Vec<DVal> = (0..ctx.size(5, 8)).map(|_| gen::gen_doc(&mut rng, &leaves)).collect();
             let variants: Vec<(Sw, tau_engine::Rule)> = Sw::ALL16.iter().filter_map(|s| if s.0 == 0 { Some((*s, rule.clone())) } else { eng::optimise(&rule, *s).ok().map(|r| (*s, r)) }).collect();
@@ -194,7 +235,10 @@ pub fn run(ctx: &Ctx) -> i32 {
                     let events = log.lock().unwrap().clone();
                     rep.add("find_events", events.len() as u64);
                     for (at, key) in &events {
-                        let ok = if at.is_empty() { top.contains(key) } else { nested.contains(key) };
+                        // a nested object is asked only for the keys written in the blocks that
+                        // sit at its location (its path with array indices removed)
+                        let loc: String = at.split('.').map(|seg| seg.split('[').next().unwrap_or(seg)).collect::<Vec<_>>().join(".");
+                        let ok = if at.is_empty() { top.contains(key) } else { by_loc.get(&loc).map(|s| s.contains(key)).unwrap_or(false) };
                         if !ok {
                             rep.violation(
                                 "foreign-key",
@@ -241,9 +285,9 @@ pub fn run(ctx: &Ctx) -> i32 {
         ctx,
         rep,
         Meta {
-            rule: "generated rules, half of them matrix-forming (sequences of mappings over a few shared fields, also under all()/of()), x all 16 switch sets x rule-aware documents rendered as a recording document whose every Object::find call (root and nested objects) is logged; the log is checked offline against the keys the rule writes (top level: identifier keys with the modifier stripped and cast arguments of the condition; nested objects: keys written in nested blocks); plus metamorphic runs with unaddressed fields added or altered, including one-character control keys that collide with the matrix's synthetic keys. non-trivial = rule whose optimised form contains a matrix; distinct by (feature tags, number of matrices)".into(),
+            rule: "generated rules, half of them matrix-forming (sequences of mappings over a few shared fields, also under all()/of()), x all 16 switch sets x rule-aware documents rendered as a recording document whose every Object::find call (root and nested objects) is logged; the log is checked offline against the keys the rule writes (top level: identifier keys with the modifier stripped and cast arguments of the condition; nested objects: the keys written in the nested blocks at that object's location); plus metamorphic runs with unaddressed fields added or altered, including one-character control keys that collide with the matrix's synthetic keys. non-trivial = rule whose optimised form contains a matrix; distinct by (feature tags, number of matrices)".into(),
             exhaustive: false,
-            assumptions: vec!["nested keys are checked against the union of keys written in any nested block (not per block)".into()],
+            assumptions: vec!["a nested object is identified by its path with array indices removed; blocks at the same location are pooled".into()],
             min_nontrivial: 30,
             extra: json!({}),
         },
